@@ -32,6 +32,7 @@ def run(ctx):
     vlib.mc_check(ctx, "ManagedProto", "ManagedProto.cfg", timeout=120, workers=2)
     vlib.mc_check(ctx, "ManagedProto", "ManagedProto_negF50.cfg", expect_violation="NoUnmanagedFile", timeout=120, workers=2)
     vlib.mc_check(ctx, "ManagedProto", "ManagedProto_negF50b.cfg", expect_violation="NoUnmanagedFile", timeout=120, workers=2)
+    vlib.mc_check(ctx, "ManagedProto", "ManagedProto_negS22.cfg", expect_violation="NoUnmanagedFile", timeout=120, workers=2)
     vlib.mc_check(ctx, "MC_Storage", "MC_Storage.cfg", timeout=120, workers=2)
     vlib.mc_check(ctx, "MC_Storage", "MC_Storage_negF4.cfg", expect_violation="CrashNoOrphan", timeout=120, workers=2)
     # interleaved builder / updater / GC: GcTight, NeverDeletesNeeded, NeverDeletesBuilding, OrphanIsF4Class
@@ -67,7 +68,9 @@ def run(ctx):
     n4 = c02.validate_runs(ctx, [e for e in gev if e.get("ev") != "schedule"], "gcrace_api")
     ctx.cov["traces_validated_against_impl"] += n3
     ctx.cov["gated_gc_races"] = {"runs": len(gruns), "realised": realised, "accepted_storage": n3, "accepted_api": n4}
-    log(f"[R] GC forced while a worker / merge thread is parked after file creation #k: {realised}/{len(gruns)} realised, {n3} + {n4} accepted")
+    nho = sum(1 for e in gev if e.get("ev") == "schedule" and "refused_first" in e and e.get("realised"))
+    ctx.cov["gated_gc_races"]["writer_handovers_between_instances"] = nho
+    log(f"[R] GC forced while a worker / merge thread is parked after file creation #k; two workers registering at once; writer handed over to a second instance that asked while the first held the lock ({nho}): {realised}/{len(gruns)} realised, {n3} + {n4} accepted")
     if realised == 0:
         raise vlib.ToolError("the gated GC race was never realised")
 
